@@ -124,14 +124,15 @@ Proof. reflexivity. Qed.
 
 Lemma step_sim kinds s sp o :
   Sim s sp ->
-  exists sp', tsstep sp o (snd (tstep kinds s o)) = Some sp' /\ Sim (fst (tstep kinds s o)) sp'.
+  exists sp', tsstep_core sp o (snd (tstep kinds s o)) = Some sp' /\ Sim (fst (tstep kinds s o)) sp' /\
+              ts_xdone sp' = ts_xdone sp.
 Proof.
   intros (Hm & Hs & Hsp & Hf & Hd).
   assert (Hq : forall w, (ts_shut sp = true -> w = false) ->
                negb (negb (ts_shut sp) || negb w || ts_loose sp) = false).
   { intros w Hw. destruct (ts_shut sp) eqn:E; cbn; [|reflexivity]. rewrite (Hw eq_refl). reflexivity. }
   assert (Hempty : ts_shut sp = true -> t_regs s = []) by (intros X; apply Hd; congruence).
-  unfold tsstep. destruct o as [p|p|fresh|i|live|live]; cbn [tstep].
+  unfold tsstep_core. destruct o as [p|p|fresh|i|live|live]; cbn [tstep].
   - (* Register *)
     rewrite Hs. destruct (ts_shut sp) eqn:Esh; cbn [snd fst quiet o_wrote o_calls o_err].
     + rewrite Hq by reflexivity. cbn. eexists; split; [reflexivity|]. repeat split; auto; congruence.
@@ -218,22 +219,206 @@ Proof.
       eexists; split; [reflexivity|]. repeat split; cbn; auto.
 Qed.
 
-Lemma trun_ok kinds ops : forall s sp, Sim s sp -> tspec_run sp (trun kinds s ops) = true.
+(** ** Exporter-level single shutdown *)
+Definition XInv (kinds : nat -> pk) (ps : nat -> pst) (done : list nat) : Prop :=
+  forall p, has_x (kinds p) = true -> mem p done = p_once (ps p).
+
+Lemma mem_app p a b : mem p (a ++ b) = mem p a || mem p b.
+Proof. unfold mem. apply existsb_app. Qed.
+
+Lemma mem_cons p x l : mem p (x :: l) = (p =? x) || mem p l.
+Proof. reflexivity. Qed.
+
+Lemma xshut_pids_app a b : xshut_pids (a ++ b) = xshut_pids a ++ xshut_pids b.
+Proof. unfold xshut_pids. now rewrite filter_app, map_app. Qed.
+
+Lemma p_shutdown_x k p st0 :
+  let '(st, xs, _) := p_shutdown k p st0 in
+  p_once st = true /\ xshut_pids xs = if has_x k && negb (p_once st0) then [p] else [].
 Proof.
-  induction ops as [|o r IH]; intros s sp HS; [reflexivity|].
-  cbn [trun]. destruct (tstep kinds s o) as [s' ob] eqn:Et. cbn [tspec_run].
-  destruct (step_sim kinds s sp o HS) as (sp' & H1 & H2).
-  rewrite Et in H1, H2. cbn in H1, H2. rewrite H1. now apply IH.
+  unfold p_shutdown. destruct (p_once st0) eqn:E; cbn.
+  - rewrite E, andb_false_r. auto.
+  - destruct k as [|x|x]; [|destruct x|destruct x]; cbn; auto; destruct (p_q st0); cbn; auto.
+Qed.
+
+Lemma fan_x kinds f k (Hf : forall kd p st, let '(st', xs, _) := f kd p st in p_once st' = p_once st /\ xshut_pids xs = []) regs :
+  forall ps, let '(ps', _, xs, _) := fan kinds f k regs ps in
+             xshut_pids xs = [] /\ forall p, p_once (ps' p) = p_once (ps p).
+Proof.
+  induction regs as [|[q b] r IH]; intros ps; cbn; [auto|].
+  specialize (Hf (kinds q) q (ps q)). destruct (f (kinds q) q (ps q)) as [[st xs] w]. destruct Hf as [H1 H2].
+  specialize (IH (upd ps q st)). destruct (fan kinds f k r (upd ps q st)) as [[[ps' cs] xs'] w'].
+  destruct IH as [I1 I2]. split; [now rewrite xshut_pids_app, H2, I1|].
+  intros p. rewrite I2. destruct (Nat.eq_dec p q) as [->|Hn]; [now rewrite upd_same | now rewrite upd_other].
+Qed.
+
+Lemma on_start_x kd p st : let '(st', xs, _) := p_on_start kd p st in p_once st' = p_once st /\ xshut_pids xs = [].
+Proof. cbn. auto. Qed.
+Lemma on_end_x kd p st : let '(st', xs, _) := p_on_end kd p st in p_once st' = p_once st /\ xshut_pids xs = [].
+Proof. destruct kd as [|x|x]; cbn; auto; destruct (p_alive st && negb (is_nil x)); cbn; auto. Qed.
+Lemma flush_x kd p st : let '(st', xs, _) := p_flush kd p st in p_once st' = p_once st /\ xshut_pids xs = [].
+Proof.
+  destruct kd as [|x|x]; cbn; auto.
+  destruct (p_alive st && negb (is_nil x)); cbn; auto. destruct (p_q st); cbn; auto.
+Qed.
+
+Lemma shutdown_all_x kinds regs : forall ps done,
+  XInv kinds ps done -> Forall (fun e => snd e = false) regs ->
+  let '(ps', _, xs, _) := shutdown_all kinds regs ps in
+  xshut_pids xs = expect_x (fun p => has_x (kinds p)) (map fst regs) done /\
+  XInv kinds ps' (xshut_pids xs ++ done).
+Proof.
+  induction regs as [|[q b] r IH]; intros ps done HX Hf; cbn [shutdown_all map fst expect_x]; [split; [reflexivity | exact HX]|].
+  inversion Hf as [|? ? Hb Hr]; subst. cbn in Hb. subst b.
+  pose proof (p_shutdown_x (kinds q) q (ps q)) as Hp.
+  destruct (p_shutdown (kinds q) q (ps q)) as [[st xs] w]. destruct Hp as [Ho Hx].
+  assert (Hc : has_x (kinds q) && negb (p_once (ps q)) = has_x (kinds q) && negb (mem q done)).
+  { destruct (has_x (kinds q)) eqn:E; [now rewrite (HX q E) | reflexivity]. }
+  rewrite Hc in Hx. clear Hc.
+  destruct (has_x (kinds q) && negb (mem q done)) eqn:Ec.
+  - assert (HX' : XInv kinds (upd ps q st) (q :: done)).
+    { intros p Hp. rewrite mem_cons. destruct (Nat.eq_dec p q) as [->|Hn].
+      - now rewrite upd_same, Ho, Nat.eqb_refl.
+      - rewrite upd_other by exact Hn. destruct (Nat.eqb_spec p q); [contradiction|]. now apply HX. }
+    specialize (IH (upd ps q st) (q :: done) HX' Hr).
+    destruct (shutdown_all kinds r (upd ps q st)) as [[[ps' cs] xs'] w']. destruct IH as [I1 I2].
+    split; [now rewrite xshut_pids_app, Hx, I1|]. rewrite xshut_pids_app, Hx.
+    intros p Hp. rewrite <- (I2 p Hp). cbn [app]. rewrite mem_cons, !mem_app, mem_cons.
+    destruct (p =? q), (mem p (xshut_pids xs')), (mem p done); reflexivity.
+  - assert (HX' : XInv kinds (upd ps q st) done).
+    { intros p Hp. destruct (Nat.eq_dec p q) as [->|Hn].
+      - rewrite upd_same, Ho. rewrite Hp in Ec. cbn in Ec. apply negb_false_iff in Ec. exact Ec.
+      - rewrite upd_other by exact Hn. now apply HX. }
+    specialize (IH (upd ps q st) done HX' Hr).
+    destruct (shutdown_all kinds r (upd ps q st)) as [[[ps' cs] xs'] w']. destruct IH as [I1 I2].
+    split; [now rewrite xshut_pids_app, Hx, I1|]. rewrite xshut_pids_app, Hx. exact I2.
+Qed.
+
+Lemma expect_x_ok hasx l : forall done,
+  nodupb (expect_x hasx l done) = true /\
+  forallb (fun p => hasx p && negb (mem p done)) (expect_x hasx l done) = true /\
+  (forall p, mem p (expect_x hasx l done) = true -> mem p done = false).
+Proof.
+  induction l as [|q r IH]; intros done; cbn [expect_x]; [repeat split; intros; discriminate|].
+  destruct (hasx q && negb (mem q done)) eqn:E; [|apply IH].
+  destruct (IH (q :: done)) as (A & B & C). apply andb_true_iff in E as [E1 E2]. apply negb_true_iff in E2.
+  cbn [nodupb forallb]. rewrite A, E1, E2. cbn [andb negb].
+  assert (Hq : mem q (expect_x hasx r (q :: done)) = false).
+  { destruct (mem q (expect_x hasx r (q :: done))) eqn:X; [|reflexivity]. apply C in X. rewrite mem_cons, Nat.eqb_refl in X. discriminate. }
+  rewrite Hq. cbn [andb negb]. split; [reflexivity|]. split.
+  - rewrite forallb_forall in *. intros p Hp. specialize (B p Hp). apply andb_true_iff in B as [B1 B2].
+    rewrite B1. cbn [andb]. apply negb_true_iff in B2. rewrite mem_cons in B2. apply orb_false_iff in B2 as [_ B2]. now rewrite B2.
+  - intros p Hp. rewrite mem_cons in Hp. apply orb_true_iff in Hp as [Hp|Hp].
+    + apply Nat.eqb_eq in Hp; subst. exact E2.
+    + apply C in Hp. rewrite mem_cons in Hp. apply orb_false_iff in Hp. tauto.
+Qed.
+
+Lemma same_set_refl l : same_set l l = true.
+Proof.
+  unfold same_set. assert (H : forallb (fun p => mem p l) l = true).
+  { apply forallb_forall. intros p Hp. unfold mem. apply existsb_exists. exists p. split; [exact Hp | apply Nat.eqb_refl]. }
+  now rewrite H.
+Qed.
+
+Lemma xs_ok_of hasx sp o ob due_eq :
+  xshut_pids (o_xcalls ob) = due_eq ->
+  due_eq = match o with
+           | TUnreg p => if ts_shut sp || negb (mem p (ts_members sp)) then [] else expect_x hasx [p] (ts_xdone sp)
+           | TShutdown _ => if ts_shut sp then [] else expect_x hasx (ts_members sp) (ts_xdone sp)
+           | _ => []
+           end ->
+  xs_ok hasx sp o ob = true.
+Proof.
+  intros H1 H2. unfold xs_ok. rewrite H1. rewrite <- H2. rewrite same_set_refl, !orb_true_r, andb_true_r.
+  assert (Hd : nodupb due_eq = true /\ forallb (fun p => hasx p && negb (mem p (ts_xdone sp))) due_eq = true).
+  { rewrite H2. destruct o; try (split; reflexivity).
+    - destruct (ts_shut sp || negb (mem p (ts_members sp))); [split; reflexivity|].
+      destruct (expect_x_ok hasx [p] (ts_xdone sp)) as (A & B & _). auto.
+    - destruct (ts_shut sp); [split; reflexivity|].
+      destruct (expect_x_ok hasx (ts_members sp) (ts_xdone sp)) as (A & B & _). auto. }
+  destruct Hd as [-> ->]. reflexivity.
+Qed.
+
+Lemma step_x kinds s sp o :
+  Sim s sp -> XInv kinds (t_pst s) (ts_xdone sp) ->
+  xs_ok (fun p => has_x (kinds p)) sp o (snd (tstep kinds s o)) = true /\
+  XInv kinds (t_pst (fst (tstep kinds s o))) (xshut_pids (o_xcalls (snd (tstep kinds s o))) ++ ts_xdone sp).
+Proof.
+  intros (Hm & Hs & Hsp & Hf & Hd) HX.
+  destruct o as [p|p|fresh|i|live|live]; cbn [tstep].
+  - destruct (t_shut s); cbn [snd fst quiet o_xcalls t_pst]; (split; [eapply xs_ok_of; reflexivity | exact HX]).
+  - destruct (t_shut s) eqn:Esh; cbn [snd fst quiet o_xcalls t_pst].
+    + split; [eapply xs_ok_of; [reflexivity | cbn; now rewrite <- Hs] | exact HX].
+    + rewrite last_index_spec, Hm. destruct (last_pos p (ts_members sp)) as [j|] eqn:El.
+      * destruct (last_pos_splice _ _ _ El) as [_ Hnth].
+        assert (Hmem : mem p (ts_members sp) = true).
+        { destruct (mem p (ts_members sp)) eqn:X; [reflexivity|]. apply last_pos_none in X. congruence. }
+        assert (Hfired : match nth_error (t_regs s) j with Some (_, f) => f | None => true end = false).
+        { rewrite <- Hm in Hnth. rewrite nth_error_map in Hnth.
+          destruct (nth_error (t_regs s) j) as [[q f]|] eqn:En; [|discriminate].
+          rewrite Forall_forall in Hf. apply (Hf (q, f)). eapply nth_error_In; eauto. }
+        rewrite Hfired. pose proof (p_shutdown_x (kinds p) p (t_pst s p)) as Hp.
+        destruct (p_shutdown (kinds p) p (t_pst s p)) as [[st xs] w]. destruct Hp as [Ho Hx].
+        cbn [snd fst o_xcalls t_pst].
+        assert (Hdue : xshut_pids xs = expect_x (fun p0 => has_x (kinds p0)) [p] (ts_xdone sp)).
+        { rewrite Hx. cbn [expect_x]. destruct (has_x (kinds p)) eqn:Eh; cbn [andb]; [|reflexivity].
+          rewrite (HX p Eh). destruct (p_once (t_pst s p)); reflexivity. }
+        split.
+        -- eapply xs_ok_of; [exact Hdue|]. cbn. rewrite <- Hs, Hmem. reflexivity.
+        -- intros q Hq. rewrite mem_app. destruct (Nat.eq_dec q p) as [->|Hn].
+           ++ rewrite upd_same, Ho, Hx, Hq. cbn [andb]. destruct (p_once (t_pst s p)) eqn:E; cbn [negb].
+              ** rewrite (HX p Hq), E. apply orb_true_r.
+              ** rewrite mem_cons, Nat.eqb_refl. reflexivity.
+           ++ rewrite upd_other by exact Hn. rewrite <- (HX q Hq), Hx.
+              destruct (has_x (kinds p) && negb (p_once (t_pst s p))); [|reflexivity].
+              rewrite mem_cons. destruct (Nat.eqb_spec q p); [contradiction | reflexivity].
+      * cbn [snd fst quiet o_xcalls]. apply last_pos_none in El.
+        split; [eapply xs_ok_of; [reflexivity | cbn; now rewrite <- Hs, El] | exact HX].
+  - destruct (t_shut s && fresh); [cbn [snd fst quiet o_xcalls t_pst]; split; [eapply xs_ok_of; reflexivity | exact HX]|].
+    pose proof (fan_x kinds p_on_start KOnStart on_start_x (t_regs s) (t_pst s)) as H.
+    destruct (fan kinds p_on_start KOnStart (t_regs s) (t_pst s)) as [[[ps cs] xs] w]. destruct H as [H1 H2].
+    cbn [snd fst o_xcalls t_pst]. rewrite H1. split; [eapply xs_ok_of; [exact H1 | reflexivity]|].
+    intros p Hp. cbn. rewrite H2. now apply HX.
+  - destruct (nth_error (t_spans s) i) as [[[|] [|]]|]; try (cbn [snd fst quiet o_xcalls t_pst]; split; [eapply xs_ok_of; reflexivity | exact HX]).
+    pose proof (fan_x kinds p_on_end KOnEnd on_end_x (t_regs s) (t_pst s)) as H.
+    destruct (fan kinds p_on_end KOnEnd (t_regs s) (t_pst s)) as [[[ps cs] xs] w]. destruct H as [H1 H2].
+    cbn [snd fst o_xcalls t_pst]. rewrite H1. split; [eapply xs_ok_of; [exact H1 | reflexivity]|].
+    intros p Hp. cbn. rewrite H2. now apply HX.
+  - destruct (t_regs s) as [|e r] eqn:Er; [cbn [snd fst quiet o_xcalls t_pst]; split; [eapply xs_ok_of; reflexivity | exact HX]|]. rewrite <- Er.
+    destruct live; [|cbn [snd fst quiet o_xcalls t_pst]; split; [eapply xs_ok_of; reflexivity | exact HX]].
+    pose proof (fan_x kinds p_flush KFlush flush_x (t_regs s) (t_pst s)) as H.
+    destruct (fan kinds p_flush KFlush (t_regs s) (t_pst s)) as [[[ps cs] xs] w]. destruct H as [H1 H2].
+    cbn [snd fst o_xcalls t_pst]. rewrite H1. split; [eapply xs_ok_of; [exact H1 | reflexivity]|].
+    intros p Hp. cbn. rewrite H2. now apply HX.
+  - destruct (t_shut s) eqn:Esh; cbn [snd fst quiet o_xcalls t_pst].
+    + split; [eapply xs_ok_of; [reflexivity | cbn; now rewrite <- Hs] | exact HX].
+    + pose proof (shutdown_all_x kinds (t_regs s) (t_pst s) (ts_xdone sp) HX Hf) as H.
+      destruct (shutdown_all kinds (t_regs s) (t_pst s)) as [[[ps cs] xs] w]. destruct H as [H1 H2].
+      cbn [snd fst o_xcalls t_pst]. split; [|exact H2].
+      eapply xs_ok_of; [exact H1|]. cbn. rewrite <- Hs, Hm. reflexivity.
+Qed.
+
+Lemma sim_xdone s sp d : Sim s sp -> Sim s (with_xdone sp d).
+Proof. intros (A & B & C & D & E). repeat split; auto. Qed.
+
+Lemma trun_ok kinds ops : forall s sp, Sim s sp -> XInv kinds (t_pst s) (ts_xdone sp) ->
+  tspec_run (fun p => has_x (kinds p)) sp (trun kinds s ops) = true.
+Proof.
+  induction ops as [|o r IH]; intros s sp HS HX; [reflexivity|].
+  cbn [trun]. destruct (step_sim kinds s sp o HS) as (sp' & H1 & H2 & H3).
+  destruct (step_x kinds s sp o HS HX) as [X1 X2].
+  destruct (tstep kinds s o) as [s' ob] eqn:Et. cbn [tspec_run fst snd] in *.
+  unfold tsstep. rewrite X1, H1. apply IH; [now apply sim_xdone | exact X2].
 Qed.
 
 (** The model satisfies the whole trace specification, for all operation sequences. *)
-Theorem tspec_ok_model kinds members ops : tspec_ok members (trun kinds (tinit members) ops) = true.
-Proof. apply trun_ok, sim_init. Qed.
+Theorem tspec_ok_model kinds members ops : tspec_ok kinds members (trun kinds (tinit members) ops) = true.
+Proof. apply trun_ok; [apply sim_init | intros p _; reflexivity]. Qed.
 
 (** The code before 98804a6 did not: a processor registered when Shutdown(cancelled ctx) was called
     was never shut down and kept receiving spans. *)
 Lemma tspec_ok_old_refuted : exists kinds members ops,
-  tspec_ok members (trun_old kinds (tinit members) ops) = false.
+  tspec_ok kinds members (trun_old kinds (tinit members) ops) = false.
 Proof.
   exists (fun _ => PCount), [0], [TStart false; TShutdown false; TEnd 0; TShutdown true]. reflexivity.
 Qed.
@@ -254,8 +439,8 @@ Lemma tstep_regs kinds s o :
      end).
 Proof.
   intros Hf Hd.
-  destruct (step_sim kinds s {| ts_members := map fst (t_regs s); ts_shut := t_shut s; ts_spans := t_spans s; ts_loose := false |} o)
-    as (sp' & H1 & H2).
+  destruct (step_sim kinds s {| ts_members := map fst (t_regs s); ts_shut := t_shut s; ts_spans := t_spans s; ts_xdone := []; ts_loose := false |} o)
+    as (sp' & H1 & H2 & _).
   { repeat split; auto. }
   destruct H2 as (_ & _ & _ & Hf' & Hd'). cbn zeta. split; [exact Hf'|]. split; [exact Hd'|]. clear H1 Hf' Hd' sp'.
   destruct (t_shut s) eqn:Esh; (split; intros Hsh; [|discriminate Hsh] || (split; intros Hsh; [discriminate Hsh|])).
